@@ -1,13 +1,14 @@
 from checks import osfam
 GUARDS = {"AllReleased", "DirtyAllReleased", "NoCreepMapped", "NoCreepResident", "QuiesceNoLive", "MmapFresh", "Invariant.Inv"}
 ARENAS = [("default", {}), ("noarena", {"MIMALLOC_DISALLOW_ARENA_ALLOC": "1"}), ("tiny", {"MIMALLOC_ARENA_RESERVE": "32768"}),
-          ("nopurge", {"MIMALLOC_PURGE_DELAY": "-1"}), ("lazy", {"MIMALLOC_EAGER_COMMIT": "0", "MIMALLOC_ARENA_EAGER_COMMIT": "0"})]
+          ("nopurge", {"MIMALLOC_PURGE_DELAY": "-1"}), ("lazy", {"MIMALLOC_EAGER_COMMIT": "0", "MIMALLOC_ARENA_EAGER_COMMIT": "0"}),
+          ("largepages", {"MIMALLOC_ALLOW_LARGE_OS_PAGES": "1"})]      # (no huge pages are configured: the large-page mapping fails and ordinary pages are used)
 def run(tier, seed):
     q = tier == "quick"
     runs = []
     for wl in ["small", "large", "huge", "mt", "mix"]:
         for an, env in ARENAS:
-            if q and an in ("nopurge", "lazy") and wl not in ("mix", "huge"):
+            if q and an in ("nopurge", "lazy", "largepages") and wl not in ("mix", "huge"):
                 continue
             for rounds in ([4] if q else [6, 24]):
                 if not q and rounds == 24 and wl == "huge":
@@ -27,9 +28,14 @@ def run(tier, seed):
         runs.append({"args": ["--workload", "relay", "--rounds", "3" if q else "6"], "env": dict(env), "tag": tag, "build": "rel"})
         if not q:
             runs.append({"args": ["--workload", "relay", "--rounds", "4"], "env": dict(env), "tag": tag, "build": "dbg"})
+    # ... and the producers leave directly mapped segments behind as well (abandoned segments on the OS list and in the arena bitmaps)
+    for tag, env in (("relayos", {}), ("relayos.rof", {"MIMALLOC_ABANDONED_RECLAIM_ON_FREE": "1"})):
+        runs.append({"args": ["--workload", "relayos", "--rounds", "3" if q else "6"], "env": dict(env), "tag": tag, "build": "rel"})
+        if not q:
+            runs.append({"args": ["--workload", "relayos", "--rounds", "4"], "env": dict(env), "tag": tag, "build": "dbg"})
     return osfam.run_os("C11", tier, seed, runs, builds=["rel", "dbg"] if q else ["rel", "dbg", "sec"], own_guards=GUARDS, crash_decisive=False,
                         group=2 if q else 1,
-                        extra_cov={"workloads": ["small", "large", "huge", "mt", "mix", "giant", "relay"], "arena_configs": [a for a, _ in ARENAS],
+                        extra_cov={"workloads": ["small", "large", "huge", "mt", "mix", "giant", "relay", "relayos"], "arena_configs": [a for a, _ in ARENAS],
                                    "rounds": [4] if q else [6, 12, 24]},
                         assumptions=["resident memory is the process RSS from /proc/self/statm (harness buffers are made resident up front); a tolerance of 96 pages plus 1/64 of the previous value per round is allowed",
                                      "allocator tables recognised by exact size (segment-map part) are exempt from AllReleased"])
